@@ -23,6 +23,18 @@ pool is displayed with the real `lightworks.Display`:
     invariant `Disp.WF` under which the index-safety theorems are proved (it is also proved to
     hold after any history of model API calls, `constructible_wf`).
 
+Option values of every Python type (directed stream first, then a sample per generated circuit), through every way
+of calling (`Display` by keyword and by position, `Circuit.display` by keyword and by position):
+  * display type: strings equal but not identical to 'svg' / 'mpl', str subclasses (known types), and unknown values of every
+    kind - near-miss strings, None, numbers, bytes, tuples, frozensets, types, and UNHASHABLE ones (lists, sets, dicts,
+    bytearrays, deques, objects without a hash): DisplayError whatever the type;
+  * mode labels held in every kind of container (list, tuple, list subclass, UserList, abstract Sequence, deque, ndarray, str,
+    bytes, range, dict / keys / values / items, set, frozenset - sized; generator, iterator, map, reversed - unsized; numbers
+    and plain objects): a sized container of the wrong length -> DisplayError, a list / tuple of the right length -> drawing,
+    other containers -> drawing or DisplayError, an object without a length -> DisplayError or TypeError (what the unchanged
+    library does: `len()` of it), never any other exception class; the caller's container is unchanged afterwards;
+  * display_loss / show_parameter_values given as any truthy / falsy object -> a drawing (model: that of bool(value)).
+
 A small directed stream probes degenerate objects the API also accepts (zero-mode circuits);
 it is oracle-only (the model's circuits have naturals as mode counts and `Disp.WF` needs n > 0).
 """
@@ -52,13 +64,18 @@ TRUSTED = [
 ASSUMPTIONS = [
     "trees: depth <= 3, <= 6 user modes per circuit, <= 3 declared heralds per circuit (theorems are unbounded)",
     "parameters hold real numbers; labels, names and mode labels are strings",
+    "option values of other types: a display type is any Python object whose == with a str gives a bool (numpy arrays, whose "
+    "elementwise == has no truth value, are not generated); display_loss / show_parameter_values are objects with a truth value "
+    "and count as bool(value); mode labels given as an object without a length (generator, iterator, number) are refused by the "
+    "unchanged library with the TypeError of len() - the oracle accepts that or DisplayError, nothing else; a sized container "
+    "that is not a list / tuple and has the right length may be drawn or refused with DisplayError",
     "Display is observed at its return value; rendering the returned matplotlib figure is exercised on a sample only",
     "the invariant Disp.WF (hypothesis of the index-safety theorems) is proved for every object built by any history "
     "of model API calls with at least one mode per constructor (constructible_wf) and is also evaluated on the model "
     "circuit of every displayed object; zero-mode objects (Circuit(0)) are outside it and are probed oracle-only",
 ]
 
-LABELS = ["a", "in", "q0", "mode", "long label", "αβγ", "x_1", "", "0123456789ab", 7, 2.5]
+LABELS = ["a", "in", "q0", "mode", "long label", "αβγ", "x_1", "", "0123456789ab", 7, 2.5, None, True, -1, "  "]
 # phase values that reach every branch of the phase text (multiples of pi/4 of either sign, n > 4,
 # plain decimals, integers, numpy scalars); the model does not depend on the value
 PI = math.pi
@@ -68,6 +85,155 @@ PLABELS = ["theta", "φ_1", "r", "loss_a", "p", "a long parameter label", "T"]
 NAMES = ["CZ", "X", "Sub-circuit", "", "Q", "CNOT"]
 ULABELS = ["U", "V1", "Haar", ""]
 BAD_TYPES = ["png", "", "SVG", "matplotlib", None, 3]
+
+
+# ----------------------------------------------------------------------- option values of every Python type
+# (targets stay JSON: {"py": name} stands for the object built by the factory of that name)
+
+
+class _S(str):
+    """a str subclass"""
+
+    __slots__ = ()
+
+
+class _L(list):
+    """a list subclass"""
+
+
+class _NoHash:
+    """defines == and therefore has no hash (the standard way to be unhashable)"""
+
+    def __eq__(self, other):
+        return self is other
+
+
+class _Seq:
+    """a sequence that is not a list (registered below as collections.abc.Sequence)"""
+
+    def __init__(self, items):
+        self._items = tuple(items)
+
+    def __len__(self):
+        return len(self._items)
+
+    def __getitem__(self, i):
+        return self._items[i]
+
+    def __iter__(self):
+        return iter(self._items)
+
+
+import collections  # noqa: E402
+import collections.abc  # noqa: E402
+
+collections.abc.Sequence.register(_Seq)
+
+# name -> (factory, the back-end it names or None when it is an unknown display type)
+DTYPE_OBJS = {
+    # known: equal to 'svg' / 'mpl' without being the interned literal
+    "svg:rebuilt": (lambda: "".join(["s", "vg"]), "svg"), "mpl:rebuilt": (lambda: "".join(["m", "pl"]), "mpl"),
+    "svg:str-subclass": (lambda: _S("svg"), "svg"), "mpl:str-subclass": (lambda: _S("mpl"), "mpl"),
+    "svg:np.str_": (lambda: np.str_("svg"), "svg"), "mpl:np.str_": (lambda: np.str_("mpl"), "mpl"),
+    # unknown strings
+    "str:Svg": (lambda: "Svg", None), "str:svg+space": (lambda: "svg ", None), "str:space+svg": (lambda: " svg", None),
+    "str:svg+newline": (lambda: "svg\n", None), "str:svg+nul": (lambda: "svg\0", None), "str:s": (lambda: "s", None),
+    "str:svgmpl": (lambda: "svgmpl", None), "str:mpl,svg": (lambda: "mpl,svg", None), "str:cyrillic-s-vg": (lambda: "ѕvg", None),
+    "str:MPL": (lambda: "MPL", None), "str:matplotlib": (lambda: "matplotlib", None), "str-subclass:png": (lambda: _S("png"), None),
+    "str-subclass:empty": (lambda: _S(""), None),
+    # unknown, hashable non-strings
+    "none": (lambda: None, None), "int:0": (lambda: 0, None), "int:1": (lambda: 1, None), "true": (lambda: True, None),
+    "false": (lambda: False, None), "float": (lambda: 1.5, None), "nan": (lambda: float("nan"), None), "complex": (lambda: 1j, None),
+    "bytes:svg": (lambda: b"svg", None), "bytes:mpl": (lambda: b"mpl", None), "bytes:empty": (lambda: b"", None),
+    "tuple:svg": (lambda: ("svg",), None), "tuple:mpl,svg": (lambda: ("mpl", "svg"), None), "tuple:empty": (lambda: (), None),
+    "frozenset:svg": (lambda: frozenset({"svg"}), None), "type:str": (lambda: str, None), "function": (lambda: len, None),
+    "object": (lambda: object(), None), "ellipsis": (lambda: ..., None), "range": (lambda: range(3), None),
+    "np.int64": (lambda: np.int64(3), None), "np.bytes_": (lambda: np.bytes_(b"svg"), None), "fraction": (lambda: __import__("fractions").Fraction(1, 2), None),
+    # unknown, UNHASHABLE
+    "list:svg": (lambda: ["svg"], None), "list:mpl": (lambda: ["mpl"], None), "list:mpl,svg": (lambda: ["mpl", "svg"], None),
+    "list:empty": (lambda: [], None), "list:nested": (lambda: [["svg"]], None), "set:svg": (lambda: {"svg"}, None),
+    "set:empty": (lambda: set(), None), "dict:svg": (lambda: {"svg": True}, None), "dict:empty": (lambda: {}, None),
+    "dict:display_type": (lambda: {"display_type": "svg"}, None), "bytearray:svg": (lambda: bytearray(b"svg"), None),
+    "bytearray:mpl": (lambda: bytearray(b"mpl"), None), "bytearray:empty": (lambda: bytearray(), None),
+    "deque:svg": (lambda: collections.deque(["svg"]), None), "userlist:svg": (lambda: collections.UserList(["svg"]), None),
+    "userdict": (lambda: collections.UserDict({"svg": 1}), None), "list-subclass:svg": (lambda: _L(["svg"]), None),
+    "no-hash-object": (lambda: _NoHash(), None), "memoryview": (lambda: memoryview(bytearray(b"svg")), None),
+    "tuple-holding-list": (lambda: ("svg", []), None),
+}
+UNKNOWN_DTYPES = [k for k, (_f, be) in DTYPE_OBJS.items() if be is None]
+EQUAL_DTYPES = [k for k, (_f, be) in DTYPE_OBJS.items() if be is not None]
+
+# truthy / falsy objects for the two boolean options
+OPT_OBJS = {
+    "int:1": lambda: 1, "int:0": lambda: 0, "int:2": lambda: 2, "none": lambda: None, "str:yes": lambda: "yes", "str:False": lambda: "False",
+    "str:empty": lambda: "", "list:empty": lambda: [], "list:0": lambda: [0], "dict:empty": lambda: {}, "tuple:0": lambda: (0,),
+    "bytes:empty": lambda: b"", "float:0": lambda: 0.0, "float:2.5": lambda: 2.5, "nan": lambda: float("nan"), "np.true": lambda: np.True_,
+    "np.false": lambda: np.False_, "np.int:0": lambda: np.int64(0), "np.array:1": lambda: np.array([1]), "object": lambda: object(),
+    "set:empty": lambda: set(), "no-hash-object": lambda: _NoHash(),
+}
+
+# containers the labels can be held in
+LC_LISTLIKE = ["list", "tuple", "list-subclass"]  # the documented kind: right length -> a drawing
+LC_SIZED = ["userlist", "sequence", "deque", "ndarray", "str", "bytes", "bytearray", "range", "dict", "dict_keys", "dict_values", "dict_items",
+            "set", "frozenset"]
+LC_UNSIZED = ["generator", "iterator", "map", "reversed", "zip"]
+LC_SCALAR = ["int", "float", "true", "false", "object", "ellipsis"]
+LC_ALL = LC_LISTLIKE + LC_SIZED + LC_UNSIZED + LC_SCALAR
+VIAS = ["Display", "Display:positional", "method", "method:positional"]
+
+
+def build_labels(kind: str, items: list):
+    uniq = [f"{x}#{i}" for i, x in enumerate(items)]
+    n = len(items)
+    return {
+        "list": lambda: list(items), "tuple": lambda: tuple(items), "list-subclass": lambda: _L(items),
+        "userlist": lambda: collections.UserList(items), "sequence": lambda: _Seq(items), "deque": lambda: collections.deque(items),
+        "ndarray": lambda: np.array([str(x) for x in items], dtype=object), "str": lambda: "".join((str(x) + "_")[0] for x in items),
+        "bytes": lambda: bytes(range(65, 65 + n)), "bytearray": lambda: bytearray(range(65, 65 + n)), "range": lambda: range(n),
+        "dict": lambda: {u: i for i, u in enumerate(uniq)}, "dict_keys": lambda: {u: i for i, u in enumerate(uniq)}.keys(),
+        "dict_values": lambda: dict(enumerate(items)).values(), "dict_items": lambda: {u: i for i, u in enumerate(uniq)}.items(),
+        "set": lambda: set(uniq), "frozenset": lambda: frozenset(uniq),
+        "generator": lambda: (x for x in items), "iterator": lambda: iter(list(items)), "map": lambda: map(str, items),
+        "reversed": lambda: reversed(list(items)), "zip": lambda: zip(items, items),
+        "int": lambda: n, "float": lambda: float(n), "true": lambda: True, "false": lambda: False, "object": lambda: object(),
+        "ellipsis": lambda: ...,
+    }[kind]()
+
+
+def py_value(spec, table):
+    """resolve a JSON option value: {"py": name} -> a fresh object of that name"""
+    if isinstance(spec, dict) and "py" in spec:
+        f = table[spec["py"]]
+        return (f[0] if isinstance(f, tuple) else f)()
+    return spec
+
+
+def backend(t: dict):
+    """the back-end the display type names ('svg' / 'mpl'), None for an unknown display type"""
+    d = t["dtype"]
+    if isinstance(d, dict) and "py" in d:
+        return DTYPE_OBJS[d["py"]][1]
+    return d if isinstance(d, str) and d in ("svg", "mpl") else None
+
+
+def truth(spec) -> bool:
+    try:
+        return bool(py_value(spec, OPT_OBJS))
+    except Exception:  # noqa: BLE001
+        return False
+
+
+def label_info(t: dict) -> dict:
+    """what kind of thing is passed as mode_labels, and (for a sized container) its length and elements"""
+    if t["labels"] is None:
+        return {"kind": "none"}
+    lc = t.get("lc", "list")
+    obj = build_labels(lc, t["labels"])
+    if lc in LC_UNSIZED:
+        return {"kind": "unsized", "n": len(list(obj))}
+    if lc in LC_SCALAR:
+        return {"kind": "scalar"}
+    return {"kind": "listlike" if lc in LC_LISTLIKE else "sized", "n": len(obj), "items": list(obj)}
 
 
 # --------------------------------------------------------------------------- generation
@@ -254,15 +420,37 @@ def snap_diff(a: dict, b: dict) -> str | None:
 
 
 def do_display(c, t: dict, render: bool = False) -> dict:
-    """run the real Display; returns {"exc": class, "msg": …} or the observables of the drawing"""
+    """run the real Display (or Circuit.display); returns {"exc": class, "msg": …} or the observables of the drawing"""
+    import contextlib
+    import io
+    import warnings
+
     import matplotlib.pyplot as plt
 
     import lightworks as lw
 
-    kw = {"display_loss": t["loss"], "mode_labels": t["labels"], "show_parameter_values": t["values"]}
+    dtype = py_value(t["dtype"], DTYPE_OBJS)
+    loss, values = py_value(t["loss"], OPT_OBJS), py_value(t["values"], OPT_OBJS)
+    labels = None if t["labels"] is None else build_labels(t.get("lc", "list"), t["labels"])
+    info = label_info(t)
+    held = list(labels) if info["kind"] in ("listlike", "sized") else None  # the caller's view of its own container
+    via = t.get("via", "Display")
+    be = backend(t)
+    out: dict = {}
     try:
-        r = lw.Display(c, display_type=t["dtype"], **kw)
-        if t["dtype"] == "mpl":
+        with warnings.catch_warnings(), contextlib.redirect_stdout(io.StringIO()):
+            warnings.simplefilter("ignore")
+            if via == "Display":
+                r = lw.Display(c, display_type=dtype, display_loss=loss, mode_labels=labels, show_parameter_values=values)
+            elif via == "Display:positional":
+                r = lw.Display(c, loss, labels, dtype, values)
+            elif via == "method":
+                r = c.display(display_type=dtype, display_loss=loss, mode_labels=labels, show_parameter_values=values)
+            else:
+                r = c.display(values, loss, labels, dtype)
+        if via.startswith("method"):
+            out = {"returned": type(r).__name__}
+        elif be == "mpl":
             fig, ax = r
             out = {"xlim": [float(v) for v in ax.get_xlim()], "ylim": [float(v) for v in ax.get_ylim()],
                    "yticks": [float(v) for v in ax.get_yticks()],
@@ -275,16 +463,36 @@ def do_display(c, t: dict, render: bool = False) -> dict:
             out = {"width": float(r.width), "height": float(r.height)}
             if render:
                 out["rendered"] = len(r.as_svg()) > 0
-        return out
     except Exception as e:  # noqa: BLE001
-        return {"exc": exc_class(e), "msg": str(e)[:200]}
+        out = {"exc": exc_class(e), "msg": str(e)[:200]}
     finally:
         plt.close("all")
+    if held is not None:
+        try:
+            now = list(labels)
+            same = len(now) == len(held) and all(type(a) is type(b) and (a is b or a == b) for a, b in zip(held, now))
+        except Exception as e:  # noqa: BLE001
+            same, now = False, exc_class(e)
+        if not same:
+            out["labels_changed"] = f"{held!r} -> {now!r}"
+    return out
 
 
 def model_target(t: dict) -> dict:
-    return {"id": t["id"], "dtype": t["dtype"], "loss": t["loss"], "values": t["values"],
-            "labels": None if t["labels"] is None else [str(x) for x in t["labels"]]}
+    be = backend(t)
+    d = t["dtype"]
+    info = label_info(t)
+    return {"id": t["id"], "dtype": be if be else ("unknown:" + d["py"] if isinstance(d, dict) else d), "loss": truth(t["loss"]),
+            "values": truth(t["values"]), "labels": [str(x) for x in info["items"]] if "items" in info else None}
+
+
+def call_text(t: dict) -> str:
+    opt = lambda v: v["py"] if isinstance(v, dict) else repr(v)  # noqa: E731
+    lab = "None" if t["labels"] is None else f"{t.get('lc', 'list')} of {t['labels']!r}"
+    how = {"Display": "Display", "Display:positional": "Display (positional arguments)", "method": "Circuit.display",
+           "method:positional": "Circuit.display (positional arguments)"}[t.get("via", "Display")]
+    return (f"{how}({t['id']}, display_type={opt(t['dtype'])}, display_loss={opt(t['loss'])}, mode_labels={lab}, "
+            f"show_parameter_values={opt(t['values'])})")
 
 
 def frac(s: str) -> float:
@@ -293,36 +501,59 @@ def frac(s: str) -> float:
     return float(Fraction(s))
 
 
+def expected_outcomes(t: dict, expected_ports: int) -> tuple[set, str]:
+    """the outcomes the property allows for these options: a set out of {"drawing", "DisplayError", "TypeError"} and why"""
+    if backend(t) is None:
+        return {"DisplayError"}, "unknown display type"
+    info = label_info(t)
+    if info["kind"] == "none":
+        return {"drawing"}, "valid options"
+    if info["kind"] == "listlike":
+        if info["n"] == expected_ports:
+            return {"drawing"}, "valid options"
+        return {"DisplayError"}, f"label list length != {expected_ports}"
+    if info["kind"] == "sized":
+        if info["n"] == expected_ports:
+            return {"drawing", "DisplayError"}, "labels in a container that is not a list, of the right length"
+        return {"DisplayError"}, f"label container length != {expected_ports}"
+    # no length: refused as a wrong argument (DisplayError, or the TypeError of len() as in the unchanged library)
+    ok = {"DisplayError", "TypeError"}
+    if info["kind"] == "unsized" and info["n"] == expected_ports:
+        ok.add("drawing")
+    return ok, "labels given as an object without a length"
+
+
 def compare(t: dict, got: dict, m: dict, expected_ports: int) -> list[str]:
     """problems of one Display call: oracle clauses first, then model-vs-code"""
     probs = []
-    bad_type = t["dtype"] not in ("svg", "mpl")
-    bad_labels = t["labels"] is not None and len(t["labels"]) != expected_ports
-    should_reject = bad_type or bad_labels
-    if "exc" in got:
-        if got["exc"] != "DisplayError":
-            probs.append(f"oracle:unexpected-exception: Display({t['id']}, display_type={t['dtype']!r}, "
-                         f"display_loss={t['loss']}, mode_labels={t['labels']!r}, show_parameter_values={t['values']}) "
-                         f"raised {got['exc']}: {got['msg']}")
-        elif not should_reject:
-            probs.append(f"oracle:rejected-valid-options: Display({t['id']}, {t['dtype']!r}, labels={t['labels']!r}) "
+    allowed, why = expected_outcomes(t, expected_ports)
+    outcome = got.get("exc", "drawing")
+    if "labels_changed" in got:
+        probs.append(f"oracle:caller-container-modified: {call_text(t)} changed the container holding the labels: {got['labels_changed']}")
+    if outcome not in allowed:
+        if "exc" in got and got["exc"] != "DisplayError":
+            probs.append(f"oracle:unexpected-exception: {call_text(t)} raised {got['exc']}: {got['msg']} ({why}: "
+                         f"{' or '.join(sorted(allowed))} required)")
+        elif "exc" in got:
+            probs.append(f"oracle:rejected-valid-options: {call_text(t)} "
                          f"raised DisplayError although the options are valid ({got['msg']})")
-    elif should_reject:
-        probs.append(f"oracle:accepted-invalid-options: Display({t['id']}, {t['dtype']!r}, labels={t['labels']!r}) "
-                     f"returned a drawing; a DisplayError is required "
-                     f"({'unknown display type' if bad_type else f'label list length != {expected_ports}'})")
-    if probs:
+        else:
+            probs.append(f"oracle:accepted-invalid-options: {call_text(t)} "
+                         f"returned a drawing; a DisplayError is required ({why})")
+    if probs or t.get("oracle_only") or label_info(t)["kind"] in ("unsized", "scalar"):
         return probs
     # correspondence
     if "exc" in got:
         if m.get("err") != got["exc"]:
-            probs.append(f"corr: Display({t['id']}, {t['dtype']!r}) impl raised {got['exc']}, model: {m}")
+            probs.append(f"corr: {call_text(t)} impl raised {got['exc']}, model: {m}")
         return probs
     if "err" in m:
-        probs.append(f"corr: Display({t['id']}, {t['dtype']!r}) impl returned a drawing, model raised {m['err']}")
+        probs.append(f"corr: {call_text(t)} impl returned a drawing, model raised {m['err']}")
         return probs
     tol = 1e-9
-    if t["dtype"] == "svg":
+    if "returned" in got:  # Circuit.display shows the drawing and returns nothing
+        return probs
+    if backend(t) == "svg":
         if abs(got["width"] - frac(m["width"])) > tol or abs(got["height"] - frac(m["height"])) > tol:
             probs.append(f"corr: svg size impl=({got['width']},{got['height']}) model=({m['width']},{m['height']})")
     else:
@@ -387,6 +618,59 @@ def make_targets(ctx: Ctx, rng, cid: str, ports: int, n_mpl: int) -> list[dict]:
     return out
 
 
+def option_type_targets(ctx: Ctx, rng, cid: str, ports: int, n: int = 1, mpl: float = 0.25) -> list[dict]:
+    """option values of every Python type, through every way of calling: `n` rounds of (an unknown display type of any
+    type, a display type equal to a known one, labels in any container of the right / a wrong length, truthy / falsy objects)"""
+    out = []
+    flag = lambda: rng.random() < 0.5  # noqa: E731
+    for _ in range(n):
+        lc = label_choices(rng, ports)
+        lk = rng.choice(["none", "good", "wrong"])
+        out.append({"id": cid, "dtype": {"py": rng.choice(UNKNOWN_DTYPES)}, "loss": flag(), "values": flag(), "labels": lc[lk],
+                    "lc": rng.choice(LC_ALL), "via": rng.choice(VIAS), "lk": "badtype:any-type"})
+        eq = rng.choice(EQUAL_DTYPES)
+        if DTYPE_OBJS[eq][1] == "svg" or rng.random() < mpl:
+            lk = rng.choice(["none", "good", "wrong"])
+            out.append({"id": cid, "dtype": {"py": eq}, "loss": flag(), "values": flag(), "labels": lc[lk], "via": rng.choice(VIAS),
+                        "lk": lk + ":equal-string"})
+        for lk in ("good", "wrong"):
+            kind = rng.choice(LC_ALL)
+            out.append({"id": cid, "dtype": "mpl" if rng.random() < mpl / 2 else "svg", "loss": flag(), "values": flag(), "labels": lc[lk],
+                        "lc": kind, "via": rng.choice(VIAS[:3]), "lk": f"{lk}:{kind}"})
+        out.append({"id": cid, "dtype": "mpl" if rng.random() < mpl / 2 else "svg", "loss": {"py": rng.choice(list(OPT_OBJS))},
+                    "values": {"py": rng.choice(list(OPT_OBJS))}, "labels": lc[rng.choice(["none", "good"])], "via": rng.choice(VIAS[:2]),
+                    "lk": "truthy-falsy-options"})
+    return out
+
+
+def option_type_corpus(cid: str, ports: int, mpl: bool) -> list[dict]:
+    """the directed part: every unknown display type x every way of calling; every equal string; every container kind with
+    the right and with wrong lengths; every truthy / falsy object for either boolean option"""
+    good = [LABELS[i % len(LABELS)] for i in range(ports)]
+    lens = sorted({k for k in (0, 1, ports - 1, ports + 1, 2 * ports) if k >= 0 and k != ports})
+    base = {"id": cid, "loss": False, "values": False, "labels": None}
+    out = []
+    for name in UNKNOWN_DTYPES:
+        out += [{**base, "dtype": {"py": name}, "via": via, "lk": "badtype:any-type"} for via in VIAS]
+        out.append({**base, "dtype": {"py": name}, "labels": good, "loss": True, "values": True, "lk": "badtype:any-type"})
+    for name in EQUAL_DTYPES:
+        if DTYPE_OBJS[name][1] == "svg" or mpl:
+            out += [{**base, "dtype": {"py": name}, "via": via, "labels": lab, "lk": "equal-string"}
+                    for via in VIAS for lab in (None, good, good + ["x"])]
+    for dtype in ("svg", "mpl") if mpl else ("svg",):
+        for kind in LC_ALL:
+            out.append({**base, "dtype": dtype, "labels": good, "lc": kind, "lk": "good:" + kind})
+            out += [{**base, "dtype": dtype, "labels": [LABELS[i % 7] for i in range(k)], "lc": kind, "lk": "wrong:" + kind}
+                    for k in (lens if dtype == "svg" else lens[-1:])]
+            if dtype == "svg":
+                out += [{**base, "dtype": dtype, "labels": lab, "lc": kind, "via": "method", "loss": True, "lk": "method:" + kind}
+                        for lab in (good, good + ["x"])]
+        for name in OPT_OBJS:
+            out.append({**base, "dtype": dtype, "loss": {"py": name}, "lk": "truthy-falsy-options"})
+            out.append({**base, "dtype": dtype, "values": {"py": name}, "loss": True, "labels": good, "lk": "truthy-falsy-options"})
+    return out
+
+
 def strip(t: dict) -> dict:
     return {k: v for k, v in t.items() if not k.startswith("_")}
 
@@ -401,8 +685,18 @@ def signature(ctx: Ctx, prog: list, t: dict, prob: str) -> dict:
     got = t.get("_got", {})
     pool = run_program(prog)[0]
     target_zero = t.get("id") in pool and pool[t["id"]].n_modes <= 0
-    return {"target_zero_mode": target_zero, "kind": category(prob), "exc": got.get("exc"), "dtype": t["dtype"] if isinstance(t["dtype"], str) else repr(t["dtype"]),
-            "barrier_empty": empty_barrier, "zero_mode": zero}
+    d = t["dtype"]
+    if isinstance(d, dict):  # option values of other types: the class of value, not each value
+        obj = py_value(d, DTYPE_OBJS)
+        try:
+            hash(obj)
+            hashable = "hashable"
+        except Exception:  # noqa: BLE001
+            hashable = "unhashable"
+        d = backend(t) or f"unknown display type ({'str' if isinstance(obj, str) else hashable + ' non-str'})"
+    return {"target_zero_mode": target_zero, "kind": category(prob), "exc": got.get("exc"), "dtype": d if isinstance(d, str) else repr(d),
+            "barrier_empty": empty_barrier, "zero_mode": zero, "via": t.get("via", "Display").split(":")[0],
+            "labels": label_info(t)["kind"] if "labels" in t else "none"}
 
 
 def shrink_and_report(ctx: Ctx, prog: list, targets: list, prob: str, model: bool = True) -> None:
@@ -411,6 +705,13 @@ def shrink_and_report(ctx: Ctx, prog: list, targets: list, prob: str, model: boo
     disagreements"""
     cat = category(prob)
     ts = [strip(t) for t in targets]
+    # shrinking is the expensive part: at most a handful per kind of problem, further instances are counted
+    kind = f"{cat}/{prob.split(' raised ')[1].split(':')[0] if ' raised ' in prob else ''}/{'model' if model else 'oracle-only'}"
+    done = ctx.extra.setdefault("problems_by_kind", {})
+    done[kind] = done.get(kind, 0) + 1
+    if cat != "corr" and done[kind] > 8 and ctx.violations:
+        ctx.count("problems_counted_not_shrunk")
+        return
 
     def problems(sub, tl):
         tl = [dict(t) for t in tl]
@@ -452,7 +753,7 @@ def run_oracle_only(prog: list, targets: list) -> list[tuple]:
         got = do_display(pool[t["id"]], t)
         t["_got"] = got
         if "exc" in got and got["exc"] != "DisplayError":
-            probs.append((t, f"oracle:unexpected-exception: Display({t['id']}, display_type={t['dtype']!r}) on the "
+            probs.append((t, f"oracle:unexpected-exception: {call_text(t)} on the "
                              f"circuit built by {[o[:5] for o in prog]} raised {got['exc']}: {got['msg']}"))
     d = snap_diff(before, snapshot(pool, params))
     if d:
@@ -503,6 +804,55 @@ def directed_programs() -> list[tuple[list, list]]:
     ]
 
 
+def target_key(t: dict) -> str:
+    return json.dumps(strip(t), sort_keys=True, default=repr)
+
+
+def count_target(ctx: Ctx, t: dict) -> None:
+    """coverage of the option-type dimension"""
+    got = t.get("_got", {})
+    d = t["dtype"]
+    if isinstance(d, dict):
+        ctx.count("dtype:" + ("equal-to-known:" if backend(t) else "unknown:") + d["py"].split(":")[0])
+    ctx.count("via:" + t.get("via", "Display"))
+    if t["labels"] is not None and ("lc" in t):
+        ctx.count(f"labels:container:{t['lc']}:{got.get('exc', 'drawing')}")
+        if label_info(t)["kind"] in ("unsized", "scalar"):
+            ctx.count("labels:without-a-length:oracle-only")
+            if got.get("exc") == "TypeError" and not ctx.extra.get("noted_unsized_labels"):
+                ctx.extra["noted_unsized_labels"] = True
+                ctx.notes.append("observation (not counted): mode labels given as an object without a length (a generator, an iterator, a "
+                                 "number) and a known display type are refused with TypeError (len() of it), not with DisplayError")
+    if isinstance(t["loss"], dict) or isinstance(t["values"], dict):
+        ctx.count("options:truthy-falsy-object")
+
+
+def option_type_stream(ctx: Ctx, rng) -> None:
+    """the option-type corpus on a few fixed circuits: one mode; a declared herald (usable modes != n_modes); groups with
+    ancillas, loss elements and Parameters"""
+    progs = directed_programs()
+    one = ([["new", "c", 1], ["ps", "c", 0, "0,1", None, True, {"pphi": "theta"}]], ["c"])
+    for k, (prog, ids) in enumerate([one, (progs[3][0], ["s"]), (progs[3][0], ["c"])]):
+        pool, _res, _params, ports = run_program(prog)
+        del pool
+        targets = []
+        for cid in ids:
+            if cid in ports:
+                targets += option_type_corpus(cid, ports[cid], mpl=(k == 1))
+        probs, _ = run_targets(ctx, prog, targets)
+        ctx.count("option_type_programs")
+        for t in targets:
+            if "_got" in t:
+                ctx.case(("option-types", k, target_key(t)), True)
+                count_target(ctx, t)
+        seen = set()
+        for t, p in probs:
+            key = (category(p), t.get("via") if t else None, backend(t) if t else None)
+            if key not in seen and len(seen) < 6:
+                seen.add(key)
+                shrink_and_report(ctx, prog, [t] if t is not None else targets, p)
+
+
 def directed_stream(ctx: Ctx, rng) -> None:
     for prog, ids in directed_programs():
         pool, _res, _params, ports = run_program(prog)
@@ -511,11 +861,13 @@ def directed_stream(ctx: Ctx, rng) -> None:
         for cid in ids:
             if cid in ports:
                 targets += make_targets(ctx, rng, cid, ports[cid], 4)
+                targets += option_type_targets(ctx, rng, cid, ports[cid], n=3)
         probs, _ = run_targets(ctx, prog, targets)
         ctx.count("directed_programs")
         for t in targets:
             if "_got" in t:
-                ctx.case(("directed", repr(prog), t["id"], repr(t["dtype"]), t["loss"], t["values"], t["lk"]), True)
+                ctx.case(("directed", repr(prog), target_key(t)), True)
+                count_target(ctx, t)
         seen = set()
         for t, p in probs:
             if category(p) not in seen:
@@ -564,11 +916,14 @@ def run(ctx: Ctx) -> None:
                 "barriers (also empty / default), Parameters with and without labels, declared heralds with in != out, "
                 "plain / grouped / heralded additions at any nesting, rewrites of a copy); every circuit object is "
                 "displayed with svg (all 12 combinations of display_loss x show_parameter_values x labels none/right/"
-                "wrong length) and mpl (a sample), plus unknown display types; evaluation = one Display call; "
+                "wrong length) and mpl (a sample), plus unknown display types; option values of every Python type (unknown display "
+                "types hashable and unhashable, strings equal to 'svg' / 'mpl', labels in every kind of container, truthy / falsy "
+                "objects) through Display and Circuit.display by keyword and by position; evaluation = one Display call; "
                 "non-trivial = the displayed circuit has a group or an external herald, and >= 3 spec entries; "
                 "distinct = distinct (program, circuit, options)")
     self_test(ctx)
     rng = ctx.rng
+    option_type_stream(ctx, rng)
     directed_stream(ctx, rng)
     N = ctx.n(400, 5000)
     n_mpl = 2
@@ -586,6 +941,8 @@ def run(ctx: Ctx) -> None:
         targets = []
         for cid in chosen:
             targets += make_targets(ctx, rng, cid, ports[cid], n_mpl if cid in (root, "r2") else 1)
+            if cid in (root, "r2", "r3") or rng.random() < 0.3:
+                targets += option_type_targets(ctx, rng, cid, ports[cid])
         render = rng.random() < 0.05
         probs, mres = run_targets(ctx, prog, targets, render=render)
         if render:
@@ -597,9 +954,10 @@ def run(ctx: Ctx) -> None:
                 continue
             f = feat.get(t["id"], {})
             nontriv = f.get("spec_len", 0) >= 3 and (f.get("groups", 0) > 0 or f.get("ext", 0) > 0)
-            ctx.case((i, t["id"], t["dtype"] if isinstance(t["dtype"], str) else repr(t["dtype"]), t["loss"], t["values"], t["lk"]),
+            ctx.case((i, target_key(t)),
                      nontriv, sample={"program": prog, "target": strip(t)} if nontriv and t["dtype"] == "svg" else None)
-            ctx.count(f"display:{t['dtype'] if t['dtype'] in ('svg', 'mpl') else 'unknown-type'}")
+            count_target(ctx, t)
+            ctx.count(f"display:{backend(t) or 'unknown-type'}")
             ctx.count(f"labels:{t['lk']}")
             ctx.count("outcome:" + got.get("exc", "drawing"))
             if f.get("groups_heralded", 0):
